@@ -1,7 +1,16 @@
 package props
 
-import "pgregory.net/rapid"
+import (
+	"encoding/json"
+
+	"pgregory.net/rapid"
+)
 
 type rapidT = rapid.T
 
 func rapidInt(t *rapid.T, lo, hi int) int { return rapid.IntRange(lo, hi).Draw(t, "n") }
+
+func jsonStr(v interface{}) (string, error) {
+	b, err := json.Marshal(v)
+	return string(b), err
+}
